@@ -7,12 +7,16 @@ import subprocess
 import sys
 
 pid = sys.argv[1]
+ROUND2 = len(sys.argv) > 2 and sys.argv[2] == "round2"
+suffix = "_r2" if ROUND2 else ""
 root = os.path.dirname(os.path.dirname(os.path.abspath(__file__)))
 prop = next(json.loads(l) for l in open(os.path.join(root, "properties.jsonl")) if json.loads(l)["id"] == pid)
-wt = f"/tmp/mut_{pid}"
+wt = f"/tmp/mut_{pid}{suffix}"
 if not os.path.exists(wt):
     subprocess.run(["git", "-C", "/repo", "worktree", "add", "-q", "--detach", wt, "HEAD"], check=True)
 files = ", ".join(prop["anchors"]["files"])
+extra = ("""
+This is a SECOND round: a first round already tried the obvious single-call defects. Prefer defects that only show (a) when ONE object (manager, wrapper, component, simulation, trainer) is used for a multi-step history — several episodes, options changed through public setters between uses, a second call after a first one, (b) through aliasing or shared mutable state between two objects built in the same process, (c) for inputs that are equal as values but differ in representation or ordering (dict insertion order, id order, numpy memory layout/dtype, tuple vs list, int vs numpy int), or (d) only for a particular combination of three or more options/agents. A check that builds a fresh object per case and feeds canonical inputs must NOT be able to see your change.""" if ROUND2 else "")
 print(f"""You are helping to evaluate a verification effort by playing the adversary. You get ONE semantic property of the Python package LLNL/Abmarl and your own scratch git worktree of its repository at {wt} (a detached checkout; work ONLY there; do NOT read or use anything under /verif or /repo — what you write must be independent of any existing checker).
 
 The property:
@@ -30,7 +34,7 @@ Your task: produce TWO independent changes ("seeded defects") to the Abmarl sour
   (1) BREAKS the property above (for some input / schedule / history the property's statement becomes false),
   (2) still imports/compiles and leaves the repository's existing test suite exactly as it was: run `cd {wt} && /venv/bin/python -m pytest -q -p no:cacheprovider --timeout=900 --continue-on-collection-errors 2>&1 | tail -5` before and after — the unchanged tree gives `1 failed, 155 passed, 12 errors` in this sandbox (the 13 non-passing items are environment-related and must stay exactly the same set; the 155 passes must stay passes),
   (3) is REALISTIC (the kind of slip a maintainer could make in a refactoring or "optimisation": a reordered statement, a cached value, an off-by-one, a condition that looks equivalent, a forgotten reset of one field, two cooperating sites that each look fine alone) and SUBTLE: it must need something specific to manifest — a particular interleaving or schedule, a multi-step sequence of operations, a second episode, an unusual but legal input, a particular combination of options — NOT something that ordinary use or the existing tests would expose at once. Do not just delete a feature or raise an exception unconditionally.
-The two changes must use different mechanisms / different code sites.
+The two changes must use different mechanisms / different code sites.{extra}
 
 For each change i in {{1,2}} deliver, under {wt}/_mutation/m<i>/ :
   * patch.diff — `git diff` of ONLY that change against the worktree's HEAD (apply cleanly with `git apply` on a clean checkout; make change 1, save its diff, `git checkout -- .`, then make change 2),
